@@ -36,7 +36,7 @@ MUTANTS = [
     ("fs", "invalid_unloads", True, "InvAllowed"),
     ("fs", "always_update", True, "InvAllowed"),
     ("fs", "ignore_rename", True, "InvAllowed"),
-    ("fs", "remove_unchecked", False, "Converges"),        # only the liveness property sees this one
+    ("fs", "remove_unchecked", False, "InvAllowed"),       # unloads what exists again (a lagging remove notification)
     ("poll1", "commerr_unloads", True, "InvAllowed"),
     ("poll1", "store_on_refusal", True, "InvAllowed"),
     ("pollN", "invalid_blocks_bucket", True, "InvAllowed"),
